@@ -56,8 +56,9 @@ def is_trait_call(t, trait, method=None):
 class CallGraph:
     """Workspace call graph: resolved calls, fn items passed as values, closures, CHA for unresolved trait calls."""
 
-    def __init__(self, F):
+    def __init__(self, F, callbacks=True):
         self.F = F
+        self.callbacks = callbacks
         self.edges = {}
         self.impl_index = {}
         for f in F.fns.values():
@@ -139,7 +140,8 @@ class CallGraph:
                     # resolved to library code: it may call back into the workspace through trait impls of the
                     # workspace types it is instantiated with (From via Into, Display via to_string/format, Hash/Eq via
                     # hash containers, Ord via sort, FromIterator via collect, ...)
-                    out.update(self._callbacks(t))
+                    if self.callbacks:
+                        out.update(self._callbacks(t))
                 for x in t.get("fnrefs", ()):
                     out.add(x)
                 for a in t["args"]:
